@@ -645,6 +645,46 @@ def runAntismash (r : RunIn) : PrepOut :=
 
 /-! ### every option `run_antismash` / `_run_antismash` reads before or around the file effects -/
 
+/-- what `--reuse-results` points at, as far as `read_data` / `AntismashResults.from_file` look -/
+inductive ReuseFile where
+  | empty                       -- zero bytes: "No results contained in file"
+  | notJson                     -- `JSONDecodeError` → `ValueError`
+  | doc (schema : Option Nat)   -- a results document; `data.get("schema", 1)`
+deriving Repr, Inhabited, DecidableEq
+
+/-- `AntismashResults.SCHEMA_VERSION` -/
+def schemaVersion : Nat := 4
+
+/-- `AntismashResults.COMPATIBLE_SCHEMAS` (a `defaultdict(set)`) -/
+def compatibleSchemas : Nat → List Nat
+  | 2 => [1]
+  | 3 => [2, 1]
+  | 4 => [3, 2, 1]
+  | _ => []
+
+/-- `schema != current and schema not in COMPATIBLE_SCHEMAS[current]` is false -/
+def schemaAccepted (found : Nat) : Bool :=
+  found == schemaVersion || (compatibleSchemas schemaVersion).contains found
+
+/-- the reuse branch of `read_data`: `None` = the results load -/
+def readReuse : ReuseFile → Option Exn
+  | .empty => some "ValueError"
+  | .notJson => some "ValueError"
+  | .doc s => if schemaAccepted (s.getD 1) then Option.none else some "ValueError"
+
+/-- what the run is given to read -/
+inductive InputKind where
+  | sequence                    -- a sequence file (its parsing is not modelled)
+  | reuse (f : ReuseFile)
+  | nothing                     -- neither: "No sequence file or prior results to read"
+deriving Repr, Inhabited, DecidableEq
+
+/-- `read_data(sequence_file, options)`: the exception it raises, if any -/
+def readData : InputKind → Option Exn
+  | .sequence => Option.none
+  | .reuse f => readReuse f
+  | .nothing => some "ValueError"
+
 /-- the options (and the two environment facts their handling consults) in the order the code reads them -/
 structure RunOpts where
   /-- `--list-plugins`: print and return 0 before anything else -/
@@ -663,6 +703,8 @@ structure RunOpts where
       which is not modelled, and nothing else -/
   debug : Bool
   verbose : Bool
+  /-- what `read_data` finds (read after the module checks, before the output directory is looked at) -/
+  input : InputKind
 deriving Repr, Inhabited, DecidableEq
 
 structure RunOut where
@@ -694,6 +736,7 @@ def runFull (o : RunOpts) (r : RunIn) : RunOut :=
   else if !o.prereqsOk then ⟨⟨s.2, some "RuntimeError", s.1⟩, Option.none⟩
   else if !o.optionsValid then ⟨⟨s.2, Option.none, s.1⟩, some 1⟩
   else if !o.anyModule then ⟨⟨s.2, some "ValueError", s.1⟩, Option.none⟩
+  else if (readData o.input).isSome then ⟨⟨s.2, readData o.input, s.1⟩, Option.none⟩
   else
     let out := runTail { r with call := { r.call with target := s.1 } }
     match out.err, out.target with
